@@ -614,7 +614,12 @@ func (fc *funcContext) typeOf(expr ast.Expr) types.Type {
 	typ := fc.pkgCtx.TypeOf(expr)
 	// If the expression is referring to an instance of a generic type or function,
 	// we want the instantiated type.
-	if ident, ok := expr.(*ast.Ident); ok {
+	ident, ok := expr.(*ast.Ident)
+	if sel, isSel := expr.(*ast.SelectorExpr); isSel {
+		// A qualified identifier (pkg.Func) is recorded under its selector.
+		ident, ok = sel.Sel, true
+	}
+	if ok {
 		if inst, ok := fc.pkgCtx.Instances[ident]; ok {
 			typ = inst.Type
 		}
